@@ -12,38 +12,77 @@
 (***************************************************************************)
 EXTENDS CLexCore
 
+\* the spellings of a precision request to be replayed (constant-level export)
+ASSUME PrintT(<<"SPELLINGS", ToJson(AllSpellings)>>)
+
 \* ---------------------------------------------------------------- behaviour: all short strings
 CONSTANTS Alphabet, MaxLen
 \* numeric alphabet: decimal and hexadecimal constants, suffixes, identifiers, strings, comments
 AlphabetNum == {"0", "1", ".", "e", "+", "x", "p", "f", DQuote, "/", "*", " ", "("}
 \* structural alphabet: literals, escapes, splices, comments, directives around one constant
 AlphabetStruct == {"1", ".", DQuote, SQuote, BSlash, NL, "/", "*", "#", " ", "d"}
-VARIABLES text, mode, tok, out, aux
-vars == <<text, mode, tok, out, aux>>
+\* for the vacuity control
+AlphabetHex == {"0", "1", "x", "p", "."}
+\* Token catalogue: the tokens named by the property and by generate.test_tag_float, around
+\* every separator.  A line is  first \o separator \o second.
+Catalogue ==
+    {"1e3", "x1e3", "3.f", ".5", "0x1.8p3", "a.b", "/*1.0.8*/", "//1.0.8 double", "struct3.e3",
+     "(double)", "(double)x", "(float)1", "my_double", "doubled", "double_", "xdouble", "cdouble",
+     "double3", "double1", "double32", "Double", "DOUBLE", "double", "double2", "double4", "double8",
+     "double16", "float", "long double", "int", "cdouble2",
+     \* generate.test_tag_float
+     "0.", "0.0", "0.01", "0e+001", "0.E0", "0.13e-031", "12.", "1.0001", "1e0", "37E-080", "1.e0",
+     "37.E-080", "845.017e+22", ".0100", ".6e+9", ".82E-004", "/*03.05.67*/", "37", "3.75+-1.6e-7-27+13.2",
+     "a3.e2", "4*atan(1)", "4.*atan(1.)",
+     \* suffixes, hexadecimal and octal forms, leading zeros
+     "1.0f", "1.0F", "1.0L", "1.0l", "1e3f", ".5f", "0x10", "0xFF", "0x1p-3", "0X1.8P+3", "0x.8p1", "0x1p3f",
+     "0x1p3L", "0xep1", "0x1e1", "017", "100", "1u", "10UL", "1e+3", "1E-3", "01.5", "007.", "00e1",
+     \* literals and comments
+     "\"1.5\"", "\"double\"", "\"%g 1.5 \"", "\"a\\\"1.0\"", "'a'", "'\"'", "'\\''", "L\"2.5\"", "/*\"*/", "/* 1.0 double */",
+     \* member access, exponent-like identifiers, calls of type-generic functions
+     "#include <a/1.5/b.h>", "#define X 1.5", "x->y", "a[1]", "s.e1", "p.x1e3", "e3", "E1", "f", "sin(2)", "pow(2,3)", "exp(-1)", "sqrt(2 )", "fabs(x)",
+     "-1.", "+.5", "1.+1."}
+Separators == {" ", ",", "+", "-", "*", "(", ")", ";", "="}
+SeparatorsQuick == {" ", ","}
+
+\* stage 0: character by character (Char); stages 1..3: first, separator, second (Feed)
+VARIABLES text, mode, tok, out, aux, stage
+vars == <<text, mode, tok, out, aux, stage>>
 Cur == [mode |-> mode, tok |-> tok, out |-> out, bs |-> aux.bs, esc |-> aux.esc,
-        bol |-> aux.bol, dir |-> aux.dir, gap |-> aux.gap]
+        bol |-> aux.bol, dir |-> aux.dir, gap |-> aux.gap, spl |-> aux.spl]
 Load(L) == /\ mode' = L.mode /\ tok' = L.tok /\ out' = L.out
-           /\ aux' = [bs |-> L.bs, esc |-> L.esc, bol |-> L.bol, dir |-> L.dir, gap |-> L.gap]
-Init == /\ text = "" /\ mode = L0.mode /\ tok = L0.tok /\ out = L0.out
-        /\ aux = [bs |-> FALSE, esc |-> FALSE, bol |-> TRUE, dir |-> "no", gap |-> TRUE]
-Char(c) == /\ Len(text) < MaxLen /\ text' = text \o c /\ Load(CharStep(Cur, c))
+           /\ aux' = [bs |-> L.bs, esc |-> L.esc, bol |-> L.bol, dir |-> L.dir, gap |-> L.gap, spl |-> L.spl]
+Init == /\ text = "" /\ mode = L0.mode /\ tok = L0.tok /\ out = L0.out /\ stage = 0
+        /\ aux = [bs |-> FALSE, esc |-> FALSE, bol |-> TRUE, dir |-> "no", gap |-> TRUE, spl |-> FALSE]
+\* Char: the lexer reads one character (and Emits the pending token first when c ends it)
+Char(c) == /\ Len(text) < MaxLen /\ text' = text \o c /\ Load(CharStep(Cur, c)) /\ UNCHANGED stage
 Next == \E c \in Alphabet : Char(c)
 Spec == Init /\ [][Next]_vars
+\* Feed: the lexer reads a catalogue entry or a separator
+Feed(t) == /\ text' = text \o t /\ Load(LexRun(Cur, t)) /\ stage' = stage + 1
+NextCat == /\ stage < 3
+           /\ \E t \in (IF stage = 1 THEN Separators ELSE Catalogue) : Feed(t)
+SpecCat == Init /\ [][NextCat]_vars
+Complete == stage \in {0, 3}
 
 \* ---------------------------------------------------------------- invariants
-TokOK(t) == t.cls \in Classes /\ Len(t.txt) >= 1 /\ t.gap \in BOOLEAN
+\* the tokens of the text read so far, and whether it is well-formed
+CurEnd == Finish(Cur)
+CurTokens == CurEnd.out
+CurWF == CurEnd.mode = "code" /\ WFTokens(CurTokens)
+
+TokOK(t) == t.cls \in Classes /\ Len(t.txt) >= 1 /\ t.gap \in BOOLEAN /\ t.bol \in BOOLEAN /\ t.spl \in BOOLEAN
 TypeOK == /\ mode \in Modes /\ aux.dir \in {"no", "hash", "include", "body"}
           /\ \A i \in 1..Len(out) : TokOK(out[i])
           /\ (mode = "code" => tok = "") /\ (mode \in {"ident", "number", "punct", "string", "chr", "header"} => tok # "")
-\* determinism: the state reached step by step depends on the text only
-StateIsRun == LexRun(L0, text) = Cur
-\* no character is lost: token texts are, in order, pieces of the text (checked through
-\* re-lexing: printing the tokens with separating blanks gives the same tokens again)
-Relex == WellFormed(text) => Plain(Lex(Text(Lex(text)))) = Plain(Lex(text))
+\* determinism: the state reached step by step is the value of the lexer on the text
+StateIsRun == LexRun(L0, text) = Cur /\ Lex(text) = CurTokens /\ WellFormed(text) = CurWF
+\* no character is lost or invented: printing the tokens and reading them again gives the same tokens
+Relex == CurWF => Plain(Lex(Text(CurTokens))) = Plain(CurTokens)
 \* laws of the rewrite, for the tokens T of a well-formed text
 ConvertLaws ==
-    WellFormed(text) =>
-      LET T == Lex(text) IN
+    CurWF =>
+      LET T == CurTokens IN
       /\ Plain(Convert(T, 64)) = Plain(T)
       /\ \A p \in {32, 128} :
            LET C == Convert(T, p) IN
@@ -52,16 +91,22 @@ ConvertLaws ==
            \* only floating type names and unsuffixed floating constants change
            /\ \A k \in 1..Len(T) :
                 Plain(ConvTok(T[k], k, p)) # Plain(<<T[k]>>)
-                  => TokClass(T[k]) \in {"decfloat", "decfloat-leading-zero", "hexfloat", "type-keyword", "vector-type"}
-           \* converting twice to single changes nothing more
-           /\ (p = 32 => Plain(Convert(C, 32)) = Plain(C))
-\* every floating constant of the result has the requested precision (sharp enough to see
-\* an untagged hexadecimal constant: CLex_asWritten.cfg must violate it)
+                  => TokClass0(T[k]) \in {"decfloat", "decfloat-leading-zero", "hexfloat", "type-keyword", "vector-type"}
+           \* no double-precision type name is left in the single-precision text; converting twice
+           \* to single changes nothing more
+           /\ (p = 32 => /\ \A i \in 1..Len(C) : TokClass(C[i]) \notin {"type-keyword", "vector-type"}
+                         /\ Plain(Convert(C, 32)) = Plain(C))
+\* every floating constant of the result has the requested precision (sharp enough to see an
+\* untagged hexadecimal constant: CLex_asWritten.cfg must violate it)
 AllFloatsTagged ==
-    WellFormed(text) =>
-      \A p \in {32, 128} : \A t \in {Convert(Lex(text), p)[i] : i \in 1..Len(Convert(Lex(text), p))} :
-          t.cls = "num" /\ NumInfo(t.txt).kind \in {"decfloat", "hexfloat"} => NumInfo(t.txt).suffix # ""
+    CurWF => \A p \in {32, 128} :
+               LET C == Convert(CurTokens, p) IN
+               \A i \in 1..Len(C) :
+                  C[i].cls = "num" /\ NumInfo(C[i].txt).kind \in {"decfloat", "hexfloat"} => NumInfo(C[i].txt).suffix # ""
 \* export for replay (always true)
-Export == WellFormed(text) /\ Len(text) >= 1 =>
-            PrintT(<<"CASE", ToJson([s |-> text, e32 |-> Text(Convert(Lex(text), 32))])>>)
+\* s: the text; e32: the expected single-precision tokens, printed; chg: how many tokens change
+Export == Complete /\ CurWF /\ Len(text) >= 1 =>
+            LET T == CurTokens IN
+            PrintT(<<"CASE", ToJson([s |-> text, e32 |-> Text(Convert(T, 32)),
+                                     chg |-> Cardinality({k \in 1..Len(T) : Plain(ConvTok(T[k], k, 32)) # Plain(<<T[k]>>)})])>>)
 =============================================================================
